@@ -117,7 +117,7 @@ Definition echo_spec : subspec := mkSpec [AAbi] true [] false [].
 Definition add_spec : subspec := mkSpec [AAbi; AAbi] true [] false [].
 Definition router_ops : list op :=
   [ODefSub 1 echo_spec; ODefSub 2 add_spec;
-   ORouter [mkM 1 1 true; mkM 2 2 true] [] false; ORouter [mkM 1 1 true; mkM 2 2 true] [] false].
+   ORouter [mkM 1 1 true; mkM 2 2 true] [] false []; ORouter [mkM 1 1 true; mkM 2 2 true] [] false []].
 
 Lemma router_recompile_traces m :
   run_session_tr m init_sstate router_ops =
